@@ -21,6 +21,7 @@ import (
 	"github.com/cube2222/octosql/physical"
 	"pgregory.net/rapid"
 
+	"verifharness/cli"
 	"verifharness/ev"
 	"verifharness/gen"
 	"verifharness/model"
@@ -127,8 +128,7 @@ func (c c25Case) inDomain(scalarOnly bool) bool {
 		return false
 	}
 	for _, n := range c.Names {
-		// WithoutQualifiers cuts a column name at its first dot (table qualifier); names with dots are a different subject
-		if n == "" || strings.Contains(n, ".") {
+		if n == "" {
 			return false
 		}
 	}
@@ -497,6 +497,16 @@ func matchJSON(path string, t gen.JT, v gen.JV, n *jnode, obs *feat) error {
 }
 
 func matchJSONRow(c c25Case, row []gen.JV, line []byte, obs *feat) error {
+	return matchJSONRowOpt(c, row, line, obs, false)
+}
+
+// matchJSONRowOpt: the line is one JSON object with one member per column, in column order (outputs print the columns
+// in schema order); member i is named like column i - the column's name or what remains of it after dropping leading
+// dot-separated qualifier segments (the statement does not say how a column is named, `t.a` is printed as "a" when that
+// is unambiguous) - no name occurs twice (a decoder keeps only one of two members with the same name, so one of the
+// row's values would be lost), and member i decodes to value i. dupOK switches the no-name-twice demand off
+// (classifier use only).
+func matchJSONRowOpt(c c25Case, row []gen.JV, line []byte, obs *feat, dupOK bool) error {
 	if len(line) == 0 || line[len(line)-1] != '\n' || bytes.IndexByte(line[:len(line)-1], '\n') >= 0 {
 		return fmt.Errorf("the row was not written as exactly one line")
 	}
@@ -504,8 +514,18 @@ func matchJSONRow(c c25Case, row []gen.JV, line []byte, obs *feat) error {
 	if err != nil {
 		return err
 	}
-	top := gen.JT{K: "struct", Names: c.Names, Parts: c.Types}
-	return matchJSON("row", top, gen.JV{K: "struct", L: row}, n, obs)
+	if n.kind != 'o' {
+		return fmt.Errorf("the row was written as a JSON %s, want object", kindName[n.kind])
+	}
+	if err := matchMemberNames(c.Names, n.keys, obs, dupOK); err != nil {
+		return err
+	}
+	for i := range c.Names {
+		if err := matchJSON("row->"+strconv.Quote(n.keys[i]), c.Types[i], row[i], n.arr[i], obs); err != nil {
+			return err
+		}
+	}
+	return nil
 }
 
 // ---- known finding: Go escapes instead of JSON escapes -----------------------------------------------------------------
@@ -654,6 +674,7 @@ func c25JSONProp(c c25Case) ev.Outcome {
 		return ev.Outcome{Discard: true}
 	}
 	var f feat
+	nameFeatures(&f, c.Names)
 	for i, t := range c.Types {
 		typeFeatures(&f, t)
 		if jsonNeedsEscape(c.Names[i]) {
@@ -697,6 +718,12 @@ func c25JSONProp(c c25Case) ev.Outcome {
 					continue
 				}
 			}
+		}
+		// known finding: qualifier stripping that collides with a kept name. Precisely: the only thing wrong with the line
+		// is repeated member names, and every repetition is of the recorded kind (see stripCollision).
+		if rec.Known("json-qualifier-strip-duplicate-key") && stripCollision(c.Names, lines[i]) && matchJSONRowOpt(c, row, lines[i], &f, true) == nil {
+			excluded = "json-qualifier-strip-duplicate-key"
+			continue
 		}
 		return ev.Fail("-o json: row %d of names=%q types=%s values=%s was written as %q: %v", i, c.Names, typesString(c.Types), rowString(row), lines[i], err)
 	}
@@ -824,6 +851,7 @@ func c25CSVProp(c c25Case) ev.Outcome {
 		return ev.Outcome{Discard: true}
 	}
 	var f feat
+	nameFeatures(&f, c.Names)
 	for i, t := range c.Types {
 		typeFeatures(&f, t)
 		if csvNeedsQuote(c.Names[i]) {
@@ -852,11 +880,20 @@ func c25CSVProp(c c25Case) ev.Outcome {
 		return fmt.Sprintf("names=%q types=%s", c.Names, typesString(c.Types))
 	}
 	hrec, err := parseCSVStrict(header)
-	if err != nil || len(hrec) != 1 || strings.Join(hrec[0], "\x00") != strings.Join(c.Names, "\x00") {
+	if err != nil || len(hrec) != 1 {
 		return ev.Fail("-o csv: header of %s was written as %q, which decodes to %q (%v)", describe(), header, hrec, err)
 	}
+	// CSV records are positional: a repeated header name loses no value of a record, so it is counted, not judged
+	if err := matchMemberNames(c.Names, hrec[0], &f, true); err != nil {
+		return ev.Fail("-o csv: header of %s was written as %q, which decodes to %q: %v", describe(), header, hrec, err)
+	}
 	var expectGo [][]string
-	expectGo = append(expectGo, c.Names)
+	if len(hrec[0]) == 1 && hrec[0][0] == "" {
+		// the one column's name is printed as the empty name (`b.` without its qualifier): an empty line, see below
+		f.add("observed_single_empty_field_record_is_an_empty_line")
+	} else {
+		expectGo = append(expectGo, hrec[0])
+	}
 	for i, row := range c.Rows {
 		recs, err := parseCSVStrict(lines[i])
 		if err != nil {
@@ -1084,7 +1121,7 @@ var topNamePool = func() []string {
 func genJSONCase(t *rapid.T) c25Case {
 	ncols := rapid.IntRange(1, 3).Draw(t, "ncols")
 	nrows := rapid.IntRange(1, 3).Draw(t, "nrows")
-	c := c25Case{Names: genTopNames(t, ncols, topNamePool)}
+	c := c25Case{Names: genColumnNames(t, ncols, topNamePool)}
 	var m map[string]string
 	if rapid.IntRange(0, 3).Draw(t, "rename") == 0 {
 		p := rapid.Permutation(specialNames).Draw(t, "field_names")
@@ -1131,7 +1168,7 @@ func genScalarType(t *rapid.T, label string) gen.JT {
 func genCSVCase(t *rapid.T) c25Case {
 	ncols := rapid.IntRange(1, 4).Draw(t, "ncols")
 	nrows := rapid.IntRange(1, 4).Draw(t, "nrows")
-	c := c25Case{Names: genTopNames(t, ncols, topNamePool)}
+	c := c25Case{Names: genColumnNames(t, ncols, topNamePool)}
 	for i := 0; i < ncols; i++ {
 		c.Types = append(c.Types, genScalarType(t, "t"+strconv.Itoa(i)))
 	}
@@ -1179,7 +1216,7 @@ func jsonAtomCases(yield func(c25Case) bool) {
 			{Names: []string{"c0"}, Types: []gen.JT{{K: "struct", Names: []string{"f"}, Parts: []gen.JT{{K: "list", Elem: &strT}}}}, Rows: [][]gen.JV{{gen.Struct(gen.List(gen.Str(s), gen.Str("ok")))}}},
 			{Names: []string{"c0"}, Types: []gen.JT{{K: "struct", Names: []string{s, "z"}, Parts: []gen.JT{{K: "int"}, strT}}}, Rows: [][]gen.JV{{gen.Struct(gen.Int(1), gen.Str("v"))}}},
 		}
-		if s != "" && !strings.Contains(s, ".") {
+		if s != "" {
 			cases = append(cases, c25Case{Names: []string{s, "z"}, Types: []gen.JT{{K: "int"}, strT}, Rows: [][]gen.JV{{gen.Int(1), gen.Str("v")}}})
 		}
 		for _, c := range cases {
@@ -1198,7 +1235,7 @@ func csvAtomCases(yield func(c25Case) bool) {
 			{Names: []string{"c0"}, Types: []gen.JT{strT}, Rows: [][]gen.JV{{gen.Str(s)}}},
 			{Names: []string{"c0", "c1", "c2"}, Types: []gen.JT{ns, strT, ns}, Rows: [][]gen.JV{{gen.Null(), gen.Str(s), gen.Str("x")}, {gen.Str(s), gen.Str(s), gen.Null()}}},
 		}
-		if s != "" && !strings.Contains(s, ".") {
+		if s != "" {
 			cases = append(cases, c25Case{Names: []string{s, "z"}, Types: []gen.JT{{K: "int"}, strT}, Rows: [][]gen.JV{{gen.Int(1), gen.Str("v")}}})
 		}
 		for _, c := range cases {
@@ -1227,16 +1264,19 @@ func numberAtomCases(yield func(c25Case) bool) {
 
 func TestC25(t *testing.T) {
 	rec = ev.New("C25", "exploration",
-		"json_random / csv_random: a schema of 1-3 (csv: 1-4) columns whose types are drawn in octosql's normal form (gen.NormType, nesting depth <= 3: scalars, lists incl. the element-less [] type, objects, tuples, flat unions; csv: scalars and unions of scalars only), 1-3 (1-4) rows of values generated FROM the types (so they conform; checked again with model.Conforms), "+
+		"json_random / csv_random: a schema of 1-3 (csv: 1-4) columns - named c0, c1, ... / names needing escapes (45%), or (55%) named as results are: a column part from {a, b, id, name} (rarely one with dots of its own: a.b, u.a, t.id, user.name, 'b.', '.a', a..b, or a name needing escapes), bare (alias / computed column) or qualified by a table alias t/u/e, so that schemas mix `e.id` with a bare `id`, `t.id` with `u.id`, `t.u.a` with `u.a`; a repeated name gets the planner's _1 suffix - whose types are drawn in octosql's normal form (gen.NormType, nesting depth <= 3: scalars, lists incl. the element-less [] type, objects, tuples, flat unions; csv: scalars and unions of scalars only), 1-3 (1-4) rows of values generated FROM the types (so they conform; checked again with model.Conforms), "+
 			"written through formats.NewJSONFormatter / NewCSVFormatter the way outputs/eager does (bufio.Writer, SetSchema, Write per row, Close; flushed per row so each row's bytes are known). Ints: edge pool (MinInt64, MaxInt64, 2^53+-k) + uniform int64; floats: finite edge pool (+-0, MaxFloat64, 5e-324, 1e21, 0.1+0.2 ...) + uniform finite bit patterns; "+
 			"strings: runes from all of 0x00-0x1f, 0x7f, JSON/CSV punctuation, ASCII, Latin-1, BMP (no surrogates), U+2028/FEFF/FFFD/FFFE, printable and non-printable astral runes, plus keyword-like words; object field names and column names partly replaced by names with quotes, backslashes, control characters, spaces, the empty name (fields only). "+
 			"json_string_atoms / csv_string_atoms: every rune of 0x00-0x7f and ~30 special runes in 8 contexts (alone, after a quote, after a backslash, between letters, before LF, after a comma, after a space, around CRLF) as column value, nested list element, object field name and column name - exhaustive. number_atoms_*: every edge int and finite edge float, typed exactly and as Int|Float. "+
-			"JSON oracle: the row's bytes are one line, valid for encoding/json; an order-preserving token walk (UseNumber) must give an object with exactly the column names (each once), Int -> number token whose exact decimal value is the int, Float -> number token whose strconv.ParseFloat equals the value (a differing sign of zero is accepted and counted: same number), String -> byte-equal, NULL -> null, Boolean -> true/false, list/tuple -> array element-wise, object -> object with exactly its field names, Time -> string parsing as RFC3339, Duration -> string. "+
-			"CSV oracle: a strict RFC 4180 reader written here must give one record per row with one field per column; NULL -> empty, Int via ParseInt, Float via ParseFloat equal, Boolean via ParseBool, String byte-equal, Time parses as RFC3339, Duration is any field; the header decodes to the names; and encoding/csv must accept the whole output and read the same records, modulo its two documented liberties (skips empty lines, CRLF->LF inside quotes). "+
+			"JSON oracle: the row's bytes are one line, valid for encoding/json; an order-preserving token walk (UseNumber) must give an object with one member per column in column order, member i named like column i (its name, or its name without leading dot-separated qualifier segments: the statement does not fix how a column is named) and no member name twice (a decoder keeps one of two equally named members: a value of the row would be lost), Int -> number token whose exact decimal value is the int, Float -> number token whose strconv.ParseFloat equals the value (a differing sign of zero is accepted and counted: same number), String -> byte-equal, NULL -> null, Boolean -> true/false, list/tuple -> array element-wise, object -> object with exactly its field names, Time -> string parsing as RFC3339, Duration -> string. "+
+			"CSV oracle: a strict RFC 4180 reader written here must give one record per row with one field per column; NULL -> empty, Int via ParseInt, Float via ParseFloat equal, Boolean via ParseBool, String byte-equal, Time parses as RFC3339, Duration is any field; the header decodes to one name per column fitting the column in the same sense (a repeated header name is counted, not judged: records are positional); and encoding/csv must accept the whole output and read the same records, modulo its two documented liberties (skips empty lines, CRLF->LF inside quotes). "+
+			"sql_inproc / sql_cli: generated JSON-lines tables p, q (1-4 columns drawn from {id, name, age, a, b, city} plus a key k, 1-4 rows; numbers, strings incl. quotes/commas/empty, booleans, NULLs) and one of: a select list over p with aliases drawn from the column names themselves (`SELECT p.id, p.age AS id`); a key join p JOIN q selecting equally named columns of both / SELECT *; a select list holding a subquery expression `(SELECT q.c1 [AS x], q.c2, ... | * FROM q [WHERE q.k = p.k]) AS sub` with 1-4 columns in drawn (mostly non-alphabetical) order. The expected rows are computed by the harness from the tables (projection, key join, key-correlated subquery: a list of plain values for one column, else a list of objects whose members are the subquery's columns). "+
+			"Run in process (eng: parser, typechecker, optimiser, execution; the records through the formatter with the schema cmd/root.go builds) and through the real binary (-o json; -o csv for the shapes without a list), judged by the same oracle: lines = expected rows as a bag; per line the member rule above (SELECT *: members paired with columns by name); objects: every key names exactly one expected member (equal, else the unique member it is a dotted suffix of), no key twice, values equal; lists as bags. "+
 			"non-trivial: a printed string or name needs JSON escaping / CSV quoting, or a value is nested, or a number is extreme (|int| > 2^53, float printed with an exponent or >= 17 digits). distinct = canonical case JSON",
 		"NaN, +-Inf and strings that are not valid UTF-8 have no JSON encoding: excluded by construction",
 		"duplicate field names inside one object type are excluded by construction (a JSON object with a repeated key has no interoperable reading); duplicate column names cannot reach a formatter (the planner renames them x, x_1)",
-		"column names containing '.' are excluded: WithoutQualifiers treats the part before the first dot as a table qualifier",
+		"how a column is named in the output is not fixed by the statement: the column's full name or any dotted suffix of it is accepted, but two columns of one line must not get the same name in -o json",
+		"sql slice: the order of result rows, of the records of a subquery and of the columns of SELECT * is not this property's subject (bags / pairing by name)",
 		"CSV cannot tell the empty string from NULL (both are the empty field the statement prescribes for NULL); a one-column row holding NULL or '' is an empty line, which RFC 4180's grammar reads as a record of one empty field and which encoding/csv skips: accepted (counted as observed_single_empty_field_record_is_an_empty_line), since the statement names no reader",
 		"Time and Duration are not listed in the statement: Time must only parse (sub-second loss is counted, not asserted), Duration must only be a string/field",
 		"non-scalar columns with -o csv panic; that is C07's subject, the CSV domain here is scalar",
@@ -1247,4 +1287,7 @@ func TestC25(t *testing.T) {
 	ev.Enumerate(t, rec, "number_atoms_csv", numberAtomCases, c25CSVProp)
 	ev.Check(t, rec, "json_random", ev.N(160000, 3000000), genJSONCase, c25JSONProp)
 	ev.Check(t, rec, "csv_random", ev.N(120000, 2000000), genCSVCase, c25CSVProp)
+	cli.CapSeconds = 120 // the machine may be heavily loaded; termination itself is C29's subject
+	ev.Check(t, rec, "sql_inproc", ev.N(1200, 80000), genSQLCase, sqlInProcProp)
+	ev.Check(t, rec, "sql_cli", ev.N(96, 6400), genSQLCase, sqlCLIProp)
 }
